@@ -439,7 +439,7 @@ func attr(ev abci.Event, key string) (string, bool) {
 // ObserveEth turns a tx result (+ recorded frames) into the o and r records of the trace.
 func (w *World) ObserveEth(res *abci.ExecTxResult, ex *obs.Exec, intrinsic uint64) (o trace.M, r trace.M) {
 	o = trace.M{"intrinsic": trace.U(intrinsic), "gasUsedRes": clampGas(res.GasUsed), "gasWanted": clampGas(res.GasWanted),
-		"gasUsed": clampGas(res.GasUsed), "gasBeforeRefund": int64(0), "root": "notrun", "logBits": []interface{}{}, "bloomBits": []int{}}
+		"gasUsed": clampGas(res.GasUsed), "gasBeforeRefund": int64(0), "root": trace.M{"st": "notrun", "ch": []interface{}{}}, "logBits": []interface{}{}, "bloomBits": []int{}}
 	r = trace.M{"code": codeOf(res), "log": trunc(res.Log, 160), "gasUsed": clampGas(res.GasUsed), "hasEthEvent": false, "ethEventTxIdx": int64(-1), "hasReceipt": false}
 	if ex != nil && ex.Root != nil {
 		o["root"] = frameOut(ex.Root)
